@@ -322,11 +322,15 @@ TrPrngPoke == IsEv("prng.poke") /\ LET ev == T[l] IN
   Step(PrSet(ev, [PrO(ev) EXCEPT !.counter = ev.counter]), <<>>, <<>>)
 TrPrngSave == IsEv("prng.save") /\ LET ev == T[l]  r == PrngSave(PrO(ev), PrngLimit, DrawOf(ev, 1), ev.size, ev.wres) IN
   IF ev.size < 32 THEN Step(objs, <<PrSt(r.o), -1, 0, 0>>, <<PrStEv(ev), ev.ret, ev.writes, Len(ev.draws)>>)
-  ELSE Step(PrSet(ev, r.o), <<PrSt(r.o), r.ret, r.written, 1, 0, r.used>>, <<PrStEv(ev), ev.ret, ev.written, ev.writes, ev.woff, Len(ev.draws)>>)
+  \* the last component: when the write was accepted, the memory (EEPROM or flash as modelled by the driver: a write
+  \* without erase leaves old AND new) holds exactly the seed that was handed to it
+  ELSE Step(PrSet(ev, r.o), <<PrSt(r.o), r.ret, r.written, 1, 0, r.used, IF ev.wres = 32 THEN r.written ELSE ev.stored>>,
+                            <<PrStEv(ev), ev.ret, ev.written, ev.writes, ev.woff, Len(ev.draws), ev.stored>>)
 TrPrngLoad == IsEv("prng.load") /\ LET ev == T[l]
       r == PrngLoad(PrO(ev), PrngLimit, <<DrawOf(ev, 1)>>, ev.size, ev.rres, ev.rbytes) IN
   IF ev.size < 32 THEN Step(objs, <<PrSt(r.o), -1, 0, 0>>, <<PrStEv(ev), ev.ret, ev.writes + ev.reads, Len(ev.draws)>>)
-  ELSE Step(PrSet(ev, r.o), <<PrSt(r.o), r.ret, r.written, 1, 1, 1>>, <<PrStEv(ev), ev.ret, ev.written, ev.reads, ev.writes, Len(ev.draws)>>)
+  ELSE Step(PrSet(ev, r.o), <<PrSt(r.o), r.ret, r.written, 1, 1, 1, IF ev.wres = 32 THEN r.written ELSE ev.stored>>,
+                            <<PrStEv(ev), ev.ret, ev.written, ev.reads, ev.writes, Len(ev.draws), ev.stored>>)
 \* documented conveniences for a NULL state: init 0, reseed 0, save/load -1, nothing drawn
 TrPrngNull == IsEv("prng.null") /\ LET ev == T[l] IN
   Step(objs, <<0, 0, -1, -1, 0>>, <<ev.init, ev.reseed, ev.save, ev.load, Len(ev.draws)>>)
@@ -334,7 +338,12 @@ TrPrngGlobal == IsEv("prng.global") /\ LET ev == T[l]  r == RandomOneShot(DrawOf
   Step(objs, <<IF ev.via_fetch = 1 THEN -7 ELSE r.ret, r.out, 1, 1>>, <<ev.ret, ev.out, Len(ev.draws), ev.guard>>)
 TrPrngFree == IsEv("prng.free") /\ LET ev == T[l] IN FreeStep(ev, Del(ev.obj), <<0>>, <<ev.counter>>)
 
-PrngNext == TrPrngInit \/ TrPrngFetch \/ TrPrngFeed \/ TrPrngReseed \/ TrPrngPoke \/ TrPrngSave \/ TrPrngLoad
+\* flavour sysrng (the library's own Linux entropy back end on a scripted getrandom): every draw asked the system
+\* at least once, reports exactly the health of that call, and hands on exactly its bytes (zeros if it failed)
+TrSysDraws == IsEv("sys.draws") /\ LET ev == T[l] IN
+  Step(objs, [i \in DOMAIN ev.draws |-> <<TRUE, ev.draws[i].sysok, IF ev.draws[i].sysok = 1 THEN ev.draws[i].sysbytes ELSE [j \in 1..Len(ev.draws[i].bytes) |-> 0]>>],
+             [i \in DOMAIN ev.draws |-> <<ev.draws[i].syscalls >= 1, ev.draws[i].ok, ev.draws[i].bytes>>])
+PrngNext == TrSysDraws \/ TrPrngInit \/ TrPrngFetch \/ TrPrngFeed \/ TrPrngReseed \/ TrPrngPoke \/ TrPrngSave \/ TrPrngLoad
             \/ TrPrngNull \/ TrPrngGlobal \/ TrPrngFree
 (* C14/C17: C++ cipher objects                                             *)
 CppSet(ev, o) == Put(ev.obj, [kind |-> "cpp", cls |-> o.cls, key |-> o.key, nonce |-> o.nonce])
